@@ -77,7 +77,7 @@ impl Asset {
 //%end
 //%fn packages/haloswap/src/asset.rs | impl Asset | is_native_token
 //%%sig
-    ensures /*[C02 asset.is_native]*/ r == (self.info is NativeToken),
+    ensures /*[C02,C01,C03,C07,C14 asset.is_native]*/ r == (self.info is NativeToken),
 //%end
 //%fn packages/haloswap/src/asset.rs | impl Asset | into_msg
 //%%sig
@@ -112,12 +112,12 @@ impl AssetInfo {
 //%end
 //%fn packages/haloswap/src/asset.rs | impl AssetInfo | is_native_token
 //%%sig
-    ensures /*[C02 assetinfo.is_native]*/ r == (self is NativeToken),
+    ensures /*[C02,C01,C03,C07,C14 assetinfo.is_native]*/ r == (self is NativeToken),
 //%end
 //%fn packages/haloswap/src/asset.rs | impl AssetInfo | query_pool
 //%%sig
     ensures
-        /*[C02,C07,C11 assetinfo.query_pool]*/ r is Ok ==> r->Ok_0.0 as nat == balance_of(querier.world(), *self, pool_addr.0@),
+        /*[C02,C07,C11,C01,C03,C04,C05,C12,C13 assetinfo.query_pool]*/ r is Ok ==> r->Ok_0.0 as nat == balance_of(querier.world(), *self, pool_addr.0@),
 //%if A
         /*[C20 assetinfo.query_pool.succeeds]*/ r is Ok,
 //%endif
@@ -126,7 +126,7 @@ impl AssetInfo {
 //%end
 //%fn packages/haloswap/src/asset.rs | impl AssetInfo | equal
 //%%sig
-    ensures /*[C02,C05 assetinfo.equal]*/ r == self.same(asset),
+    ensures /*[C02,C05,C01,C03,C07,C09,C12,C14 assetinfo.equal]*/ r == self.same(asset),
 //%%head
         broadcast use {axiom_string_eq_spec, axiom_string_obeys_eq};
 //%end
@@ -182,7 +182,7 @@ impl PairInfoRaw {
 //%fn packages/haloswap/src/asset.rs | impl PairInfoRaw | query_pools
 //%%sig
     ensures
-        /*[C02,C04,C05 pools.query]*/ r is Ok ==> ({ let p = r->Ok_0;
+        /*[C02,C04,C05,C01,C03,C12,C15 pools.query]*/ r is Ok ==> ({ let p = r->Ok_0;
             raw_of(p[0].info, self.asset_infos[0]) && raw_of(p[1].info, self.asset_infos[1])
             && p[0].amount.0 as nat == balance_of(querier.world(), p[0].info, contract_addr.0@)
             && p[1].amount.0 as nat == balance_of(querier.world(), p[1].info, contract_addr.0@)
